@@ -73,6 +73,11 @@ def v_peak(ctx, ec, n):
                     r2 = rng.randint(-(S.MM1 - lo), S.MM1 - lo) if rng.random() < 0.7 else rng.choice([-1, 1]) * (S.MM1 - lo)
                     if S.in_domain(r2, a2, j, T):
                         r, a = r2, a2
+        if rng.random() < 0.2:
+            # overshoot: the move exceeds the 2^31-1 limit somewhere (the helper's purpose is to notice); push the start rate up or down
+            sh = rng.choice([-1, 1]) * rng.randint(1, 3 * S.M)
+            if abs(r + sh) <= S.MM1 and S.in_domain(r + sh, a, j, T, lo=-8 * S.M, hi=8 * S.M):
+                r += sh
         events.append(S.ev_val("max", r, a, j, T, ec.max_rate_t3(T, r, a, j), 15))
     vs = S.judge(ctx, "v", events)
     rej = 0
